@@ -228,6 +228,9 @@ type RecMeta struct {
 	Inner metadata.Metadata
 	Saves []*SaveCall
 	Loads int
+	// OnLoad, when set, runs inside every Load (before the backend is asked) - i.e. while the session that
+	// is being opened is loading its checkpoints
+	OnLoad func(n int)
 }
 
 func (m *RecMeta) Save(state map[uint16]*models.CheckpointDocument, dirty map[uint16]bool, uuid string) error {
@@ -252,6 +255,9 @@ func (m *RecMeta) Save(state map[uint16]*models.CheckpointDocument, dirty map[ui
 
 func (m *RecMeta) Load(vbIds []uint16, uuid string) (*wrapper.ConcurrentSwissMap[uint16, *models.CheckpointDocument], bool, error) {
 	m.Loads++
+	if m.OnLoad != nil {
+		m.OnLoad(m.Loads)
+	}
 	return m.Inner.Load(vbIds, uuid)
 }
 
